@@ -767,6 +767,9 @@ func genC01(r *Rng, tier string) []Case {
 		}
 		editCase()
 		editCase(L(Sym("status"), Zi(404)))
+		for _, add := range []int{1000, 2000, 10000, -1000} { // a status that agrees with the signed one modulo 1000
+			editCase(L(Sym("status"), Zi(int64(e.ResponseStatus+add))))
+		}
 		editCase(L(Sym("status"), Zi(int64(e.ResponseStatus))))
 		editCase(L(Sym("addresp"), B([]byte("X-Injected")), B([]byte("1"))))
 		editCase(L(Sym("addresp"), B([]byte("Content-Type")), B([]byte("text/evil"))))
